@@ -21,9 +21,8 @@ RULE = ("histories of 5-40 calls of the eight register*/unregister* methods (+ r
         "over a generated interface/class world, with identical / equal-but-distinct / unhashable components, "
         "several names and infos, related provided interfaces, explicit / factory= / inferred / class-valued "
         "arguments; after every call: return value, events, four listings, probe counters, 3 targeted queries "
-        "(12 after the last call); a case is non-trivial when at least one unregister call removed something "
-        "and one utility was replaced or shared a provided interface with an equal component; distinct = "
-        "distinct (first 12 op kinds, permitted finding shape)")
+        "(12 after the last call); a case is non-trivial when it registers a utility and at least one "
+        "unregister call returned True; distinct = distinct (first 12 op kinds, permitted finding shape)")
 TRUSTED_BASE = [
     "Model/Adapter.v storage + uncached walkers (shared registry model; lookup caches assumed transparent: C05)",
     "components as (identity, equality class, hashable) with __hash__ consistent with __eq__ and hashability "
@@ -559,9 +558,10 @@ def replay_text(case, obs, mode):
 TECHNIQUE = ("Coq proofs by induction over histories about a Gallina transcription of registry.py (Components, "
              "_UtilityRegistrations) on top of the shared adapter-registry model; refinement to a ledger Spec; "
              "vm_compute correspondence with both implementations and a ledger-only Spec oracle on their raw answers")
-LEVEL_TEXT = ("Machine-checked theorems (Properties/C16.v, closed under the global context) state for every history of "
-              "the eight mutators and re-initialisation that the four listings equal the Spec ledger, that both "
-              "underlying registries hold exactly what the listings determine, that the probe finds nothing, that "
+LEVEL_TEXT = ("Machine-checked theorems (Properties/C16.v, 11 theorems, closed under the global context) state for every "
+              "history of the eight mutators and re-initialisation that the four listings equal the Spec ledger, that both "
+              "underlying registries hold exactly what the listings determine and that their pruning structures never "
+              "hide a stored registration, that queryUtility answers from the listings, that the probe finds nothing, that "
               "unregister calls return whether something was removed, that a replaced utility yields Unregistered then "
               "Registered and a no-op none; the full event clause is stated, refuted by two computed witnesses (F9, F11) "
               "and proved for all other calls. The model is compared with the C and Python builds after every call of "
